@@ -168,7 +168,7 @@ def run_impl(vh, ops, nproc=None, timeout=3600, env=None):
     return ans
 
 
-def run_model(ops, nproc=None, timeout=3600):
+def run_model(ops, nproc=None, timeout=900):
     return _run_lines([driver_path()], ops, nproc or NPROC, timeout=timeout)
 
 
